@@ -63,7 +63,11 @@ type reqRec struct {
 	ke          [][]byte // the cookies of the key exchange the client made for this exchange, if any
 	timeout     bool     // the script ends without a decisive datagram: the client runs into its deadline
 	addr        netip.AddrPort
-	reqAuth     bool // SCION: the request carries the packet authenticator of the client direction
+	reqAuth     bool       // SCION: the request carries the packet authenticator of the client direction
+	server      netip.Addr // the address the request was sent to (SCION: its destination host)
+	other       netip.Addr // the scripted peer's other address
+	port        int        // the port the request was sent to (SCION: its UDP destination port)
+	late        bool       // the clock of the client jumped past the deadline when the request arrived
 }
 
 type worker struct {
@@ -75,7 +79,10 @@ type worker struct {
 	connS        *net.UDPConn // SCION underlay socket of the scripted peer
 	keLn         net.Listener
 	kePort       int
-	keAnnounce   int // != 0: the port the key exchange names (SCION histories: the underlay socket of the peer)
+	keAnnounce   int  // != 0: the port the key exchange names (SCION histories: the underlay socket of the peer)
+	keTarget     int  // 0: the key exchange names the peer's first address, 1: its second address
+	keCookies    int  // number of cookies a key exchange delivers (0: eight)
+	lateMode     bool // requests make the client's clock jump past the deadline
 
 	mu       sync.Mutex
 	s2c, c2s []byte
@@ -122,14 +129,21 @@ func selfSigned() tls.Certificate {
 func newWorker(id int, seed uint64, a, b netip.Addr) *worker {
 	w := &worker{id: id, rng: lib.NewRng(seed), addrA: a, addrB: b}
 	var err error
+	udpNet, tcpNet := "udp4", "tcp4"
+	if !a.Is4() {
+		udpNet, tcpNet = "udp6", "tcp6"
+	}
 	// the second source has another address but the same port number as the server
 	for try := 0; ; try++ {
-		w.connA, err = net.ListenUDP("udp4", net.UDPAddrFromAddrPort(netip.AddrPortFrom(a, 0)))
+		w.connA, err = net.ListenUDP(udpNet, net.UDPAddrFromAddrPort(netip.AddrPortFrom(a, 0)))
 		if err != nil {
 			panic(err)
 		}
+		if !b.IsValid() {
+			break // one address only (IPv6 loopback)
+		}
 		port := uint16(w.connA.LocalAddr().(*net.UDPAddr).Port)
-		w.connB, err = net.ListenUDP("udp4", net.UDPAddrFromAddrPort(netip.AddrPortFrom(b, port)))
+		w.connB, err = net.ListenUDP(udpNet, net.UDPAddrFromAddrPort(netip.AddrPortFrom(b, port)))
 		if err == nil {
 			break
 		}
@@ -139,11 +153,11 @@ func newWorker(id int, seed uint64, a, b netip.Addr) *worker {
 		}
 	}
 	// a third socket on the server's address with another port
-	w.connC, err = net.ListenUDP("udp4", net.UDPAddrFromAddrPort(netip.AddrPortFrom(a, 0)))
+	w.connC, err = net.ListenUDP(udpNet, net.UDPAddrFromAddrPort(netip.AddrPortFrom(a, 0)))
 	if err != nil {
 		panic(err)
 	}
-	ln, err := tls.Listen("tcp4", netip.AddrPortFrom(a, 0).String(), &tls.Config{
+	ln, err := tls.Listen(tcpNet, netip.AddrPortFrom(a, 0).String(), &tls.Config{
 		Certificates: []tls.Certificate{selfSigned()}, MinVersion: tls.VersionTLS13, NextProtos: []string{"ntske/1"}})
 	if err != nil {
 		panic(err)
@@ -151,7 +165,11 @@ func newWorker(id int, seed uint64, a, b netip.Addr) *worker {
 	w.keLn = ln
 	w.kePort = ln.Addr().(*net.TCPAddr).Port
 	go w.keLoop()
-	go w.udpLoop()
+	go w.udpLoop(w.connA, w.connB, a, b)
+	if w.connB != nil {
+		// the second address is a server of its own: same script, roles exchanged
+		go w.udpLoop(w.connB, w.connA, b, a)
+	}
 	return w
 }
 
@@ -186,7 +204,11 @@ func (w *worker) keLoop() {
 			msg.AddRecord(ntske.NextProto{NextProto: ntske.NTPv4})
 			msg.AddRecord(ntske.Algorithm{Algo: []uint16{ntske.AES_SIV_CMAC_256}})
 			var issued [][]byte
-			for i := 0; i < 8; i++ {
+			ncookies := 8
+			if w.keCookies > 0 {
+				ncookies = w.keCookies
+			}
+			for i := 0; i < ncookies; i++ {
 				ck := w.rng.Bytes(100)
 				issued = append(issued, ck)
 				msg.AddRecord(ntske.Cookie{Cookie: ck})
@@ -197,8 +219,12 @@ func (w *worker) keLoop() {
 			if w.keAnnounce != 0 {
 				port = w.keAnnounce
 			}
+			target := w.addrA
+			if w.keTarget == 1 {
+				target = w.addrB
+			}
 			w.mu.Unlock()
-			msg.AddRecord(ntske.Server{Addr: []byte(w.addrA.String())})
+			msg.AddRecord(ntske.Server{Addr: []byte(target.String())})
 			msg.AddRecord(ntske.Port{Port: uint16(port)})
 			msg.AddRecord(ntske.End{})
 			buf, err := msg.Pack()
@@ -580,6 +606,12 @@ func (w *worker) build(rc recipe, rq *reqRec, idx int) (payload []byte, fromServ
 		for i := int64(0); i <= rc.p1/2%2; i++ {
 			clear = append(clear, r.Bytes(100))
 		}
+	case 25:
+		// genuine, without a new cookie (empty plaintext): the pool is not replenished
+		if wantInter {
+			interleavedBase()
+		}
+		pt = nil
 	case 24:
 		// genuine, with a cleartext cookie field in front of the authenticator (authenticated as associated data)
 		if wantInter {
@@ -647,16 +679,16 @@ func (w *worker) ntsFacts(d *dgramRec, rq *reqRec) {
 // udpLoop answers every request with the datagrams of its script, in order,
 // followed by two one-byte datagrams that end the call whatever happened
 // before (unless the script is meant to run the client into its deadline).
-func (w *worker) udpLoop() {
+func (w *worker) udpLoop(me, otherConn *net.UDPConn, server, other netip.Addr) {
 	buf := make([]byte, 2048)
 	for {
-		n, addr, err := w.connA.ReadFromUDPAddrPort(buf)
+		n, addr, err := me.ReadFromUDPAddrPort(buf)
 		if err != nil {
 			return
 		}
 		arrival := time.Now()
 		raw := append([]byte(nil), buf[:n]...)
-		rq := &reqRec{raw: raw, arrival: arrival, addr: addr}
+		rq := &reqRec{raw: raw, arrival: arrival, addr: addr, server: server, other: other, port: me.LocalAddr().(*net.UDPAddr).Port}
 		if n >= 48 {
 			var p ntp.Packet
 			_ = ntp.DecodePacket(&p, raw)
@@ -664,6 +696,11 @@ func (w *worker) udpLoop() {
 		}
 		rq.uid, _, _, _, _, _ = walk(raw)
 		w.mu.Lock()
+		if w.lateMode {
+			// from now on the client's clock reads an hour later: every retry decision of this exchange finds the deadline passed
+			theClock.jump.Store(int64(time.Hour))
+			rq.late = true
+		}
 		rq.s2c = w.s2c
 		if w.keSeq != w.keSeen {
 			rq.ke, w.keSeen = w.lastKE, w.keSeq
@@ -675,6 +712,12 @@ func (w *worker) udpLoop() {
 		}
 		var genuine []byte
 		for i, rc := range rq.recipes {
+			if otherConn == nil && rc.kind == 2 {
+				rc.kind = 21 // one address only: another port instead of another address
+			}
+			if me != w.connA && rc.kind == 21 {
+				rc.kind = 2 // the third socket is on the first address
+			}
 			pl, fs := w.build(rc, rq, i)
 			d := dgramRec{fromServer: fs, payload: pl, otherPort: rc.kind == 21}
 			if w.nts {
@@ -694,9 +737,9 @@ func (w *worker) udpLoop() {
 		prevUID := rq.uid
 		w.mu.Unlock()
 		for _, d := range rq.sent {
-			c := w.connA
+			c := me
 			if !d.fromServer {
-				c = w.connB
+				c = otherConn
 			} else if d.otherPort {
 				c = w.connC
 			}
